@@ -43,7 +43,8 @@ mod guard_impl {
 
     impl Guard {
         pub fn new(len: usize, at_end: bool) -> Guard {
-            let data_pages = (len + PAGE - 1) / PAGE + 1;
+            // size classes (powers of two) so that pooled mappings are actually reused
+            let data_pages = ((len + PAGE - 1) / PAGE + 1).next_power_of_two();
             let total = (data_pages + 1) * PAGE;
             unsafe {
                 let reused = POOL.with(|p| {
@@ -64,7 +65,10 @@ mod guard_impl {
                         base
                     }
                 };
-                std::ptr::write_bytes(base.add(acc_start), CANARY, data_pages * PAGE);
+                // paint only what lies outside the declared range (the range itself is caller data)
+                let lo = ptr_off - acc_start;
+                std::ptr::write_bytes(base.add(acc_start), CANARY, lo);
+                std::ptr::write_bytes(base.add(ptr_off + len), CANARY, data_pages * PAGE - lo - len);
                 Guard { base, total, ptr: base.add(ptr_off), len, acc_start, acc_len: data_pages * PAGE }
             }
         }
@@ -81,10 +85,11 @@ mod guard_impl {
             unsafe {
                 let acc = std::slice::from_raw_parts(self.base.add(self.acc_start), self.acc_len);
                 let lo = self.ptr as usize - (self.base as usize + self.acc_start);
-                for (i, &b) in acc.iter().enumerate() {
-                    if (i < lo || i >= lo + self.len) && b != CANARY {
-                        return Some(i);
-                    }
+                if let Some(i) = acc[..lo].iter().position(|&b| b != CANARY) {
+                    return Some(i);
+                }
+                if let Some(i) = acc[lo + self.len..].iter().position(|&b| b != CANARY) {
+                    return Some(lo + self.len + i);
                 }
             }
             None
@@ -95,10 +100,10 @@ mod guard_impl {
         fn drop(&mut self) {
             let data_pages = self.acc_len / PAGE;
             let at_end = self.acc_start == 0;
-            let keep = data_pages <= 64
+            let keep = data_pages <= 2048
                 && POOL.with(|p| {
                     let mut p = p.borrow_mut();
-                    if p.len() < 48 {
+                    if p.len() < 96 && p.iter().filter(|e| e.0 == data_pages && e.1 == at_end).count() < 4 {
                         p.push((data_pages, at_end, self.base as usize));
                         true
                     } else {
@@ -1251,8 +1256,8 @@ pub fn defs() -> Vec<CheckDef> {
     vec![CheckDef {
         id: "C17",
         level: "fault_enumeration",
-        runs_quick: 80_000,
-        runs_thorough: 1_500_000,
+        runs_quick: 1_500_000,
+        runs_thorough: 30_000_000,
         block: 128,
         gen: gen_c17,
         exec,
